@@ -1,10 +1,8 @@
 (* C18 -- proofs, part 12: formatting / parsing.
    * operator<< (binary branch) prints exactly the 0/1/X view of the bit array, MSB first;
    * formatState(base 16) prints the hex digit string of the array;
-   * a witness that the real behaviour (which the model follows faithfully, and which the
-     harness confirms on the real library on every run) deviates from "the same operation on an
-     array of bits":
-       - parseBitVector rejects valid octal literals of 22 or more digits. *)
+   * regression examples for the two repaired text-level defects (decimal digits in formatState,
+     long octal literals), and the witness that abs_resize needs its `clean` hypothesis. *)
 From Coq Require Import List NArith ZArith Bool Lia Ascii String.
 From Gatery Require Import Bits BvsDefs BvsSpec BvsLeaf BvsWords BvsCopy BvsAbs BvsOps BvsEq BvsQuery.
 Import ListNotations.
@@ -49,7 +47,7 @@ Qed.
 
 (* ---- formatState in base 16 (without dropLeadingZeros): one hex digit per nibble of the bit
         array, most significant nibble first; 'X' if any of the four bits is undefined.
-        (Before /repo fff2228 nibbles above 9 were printed as two decimal digits, which made
+        (Before /repo b90a265 nibbles above 9 were printed as two decimal digits, which made
         0x00AB / 0x1011 and 0x1A0 / 0xB00 print alike; see the regression examples below.) ---- *)
 Definition hexdigit_spec (a : sst) (k : nat) : ascii :=          (* nibble k, counted from bit 0 *)
   let v j := sbit a VALUE (4 * k + j) in
@@ -133,24 +131,23 @@ Example formatState_hex_regression :
   /\ formatState (st_defined 16 171) 16 false = list_ascii_of_string "00AB".
 Proof. repeat split; vm_compute; reflexivity. Qed.
 
-(* ---- witness 2: a valid 22-digit octal literal is rejected (assertion in insertNonStraddling:
-        digit 21 occupies bits 63..65), 21 digits are accepted ---- *)
-Theorem parse_octal_22_digits_refuted :
-  parseBitVector (list_ascii_of_string "o0000000000000000000000") = None
-  /\ parseBitVector (list_ascii_of_string "66o1234567012345670123456") = None
-  /\ (exists s, parseBitVector (list_ascii_of_string "o000000000000000000000") = Some s /\ bsize s = 63).
-Proof.
-  split; [|split].
-  - vm_compute. reflexivity.
-  - vm_compute. reflexivity.
-  - eexists. split; vm_compute; reflexivity.
-Qed.
+(* ---- regression examples for the repaired octal defect (/repo 659d324): literals of 22 and more
+        octal digits (digit 21 occupies bits 63..65, digit 42 bits 126..128) parse; the general
+        statement for any number of digits is BvsParse.parse_octal_literal ---- *)
+Example parse_octal_long_regression :
+  option_map bsize (parseBitVector (list_ascii_of_string "o0000000000000000000000")) = Some 66
+  /\ option_map (fun s => print_spec (abs s)) (parseBitVector (list_ascii_of_string "66o7000000000000000000001"))
+     = Some (list_ascii_of_string "111000000000000000000000000000000000000000000000000000000000000001")
+  /\ option_map (fun s => print_spec (abs s)) (parseBitVector (list_ascii_of_string "o5x000000000000000000003"))
+     = Some (list_ascii_of_string "101XXX000000000000000000000000000000000000000000000000000000000000011")
+  /\ option_map bsize (parseBitVector (list_ascii_of_string "o1234567012345670123456701234567012345670123")) = Some 129.
+Proof. repeat split; vm_compute; reflexivity. Qed.
 
 (* ---- the `clean` hypothesis of abs_resize is necessary: a representation whose last word carries
         bits above `size` is well-formed and equal (operator==) to its cleaned copy, and yet growing
         both by resize gives different containers.  No modelled operation produces such a state
         (every one preserves `clean`, see BvsSeq.step_correct); writing whole words through data()
-        does, which is why createRandom*DefaultBitVectorState re-mask with resize() since /repo 25f5b7d
+        does, which is why createRandom*DefaultBitVectorState re-mask with resize() since /repo 0690f16
         (regression-probed by the harness on every run). ---- *)
 Definition st_dirty : bvs := {| bsize := 10; planes := [[0x7FF]; [N.ones 64]] |}.
 Definition st_cleaned : bvs := {| bsize := 10; planes := [[0x3FF]; [0x3FF]] |}.
